@@ -343,6 +343,8 @@ def main():
     quick = chk.quick
     width = 3 if quick else 8
     only = set(chk.args.only.split(",")) if chk.args.only else None
+    if chk.args.budget is None and "VERIF_BUDGET" not in os.environ and quick:
+        chk.budget = 420.0      # soft deadline between depth rounds; ~3 min expected on 16 idle cores
 
     # what users run: the default 8 MiB native stack, whatever the caller's shell says
     soft, hard = resource.getrlimit(resource.RLIMIT_STACK)
@@ -365,8 +367,10 @@ def main():
              "inputs, compiler forms, macros, PEG compile/match, interpreter recursion and re-entry, crafted images, "
              "collector/assembler chains, compositions, tail calls) x every depth in {geometric sweep 1..10^6 x2%s, "
              "+-%d of each guard constant read from janet.h, +-%d of each observed boundary located by bisection}; "
-             "superlinear-cost pairs are swept to a stated lower cap. A distinct non-trivial case is a pair whose outcome "
-             "class changes along the sweep." % ("" if quick else " refined to sqrt(2)", width, width))
+             "superlinear-cost pairs are swept to a stated lower cap%s. A distinct non-trivial case is a pair whose outcome "
+             "class changes along the sweep." % ("" if quick else " refined to sqrt(2)", width, width,
+                                                 "; quick tier: consumers that merely extend another consumer of the catalog "
+                                                 "(eval = compile + run, ...) stop at 131072" if quick else ""))
     chk.assume("fast variant (gcc -O2, per-file objects of the same sources), RLIMIT_STACK 8 MiB, address space capped at "
                "6 GB by the engine: janet's own out-of-memory exit is a resource exit, not a violation; Janet-level "
                "recursion on cyclic data is run in a fiber with fiber/setmaxstack 2*10^6 so that its catchable stack "
@@ -378,6 +382,8 @@ def main():
     cap = {p.key: depth_cap(p, quick) for p in sweep_pairs}
 
     def sched(p, d):
+        if quick and d > 131072 and (p.family, p.consumer) in BASE and (p.family, BASE[(p.family, p.consumer)], p.shape) in bykey:
+            return False    # quick tier: above 131072 a derived consumer (eval = compile + run, ...) is covered by its base
         return d <= cap[p.key] and d not in p.obs and (p.stopped is None or d < p.stopped[0])
 
     # -- round 0: every self-referential pair at size 1, one process per item with a short watchdog:
@@ -464,7 +470,7 @@ def main():
     chk.part("neighbourhoods", items=len(work), wall_s=round(chk.elapsed(), 1))
 
     # -- tail calls
-    tail_ns = [10 ** 7] if quick else [10 ** 6, 10 ** 7, 3 * 10 ** 7]
+    tail_ns = [10 ** 6, 10 ** 7] if quick else [10 ** 6, 10 ** 7, 3 * 10 ** 7]
     run.run([(p, n) for p in tail_pairs for n in tail_ns], chunk=1, timeout=600)
 
     # ---------------------------------------------------------------------------------------
